@@ -26,6 +26,12 @@ class Mod:
 
 
 BODIES = ["1", ". + 1", "[., 1]", "\"{N}\"", ". as $v | [$v, \"{N}\"]", "(1, 2)", "if . then \"{N}\" else 0 end", "[.[]?]", "$g"]
+# module-level definitions that call themselves: in tail position, behind an output, and inside a constructor
+REC_BODIES = ["if (type == \"number\") and . < 3 then (. + 1 | {SELF}) else \"{N}\" end",
+              "if (type == \"number\") and . < 2 then ., (. + 1 | {SELF}) else [., \"{N}\"] end",
+              "if (type == \"number\") and . < 2 then [. + 1 | {SELF}] else 0 end",
+              "if (type == \"array\") and length > 0 then (.[1:] | {SELF}) else \"{N}\" end",
+              "(if type == \"number\" then . else 0 end) as $n | if $n < 3 then ($n + 1 | {SELF}) // 5 else $n end"]
 
 
 def gen_graph(rng, n, cyclic=False):
@@ -42,6 +48,8 @@ def gen_graph(rng, n, cyclic=False):
         for nm in names:
             params = rng.choice([[], [], ["x"], ["$x"]])
             body = rng.choice(BODIES).replace("{N}", m.name)
+            if not params and rng.random() < 0.3:
+                body = rng.choice(REC_BODIES).replace("{N}", m.name).replace("{SELF}", nm)
             # call into dependencies
             calls = []
             for kind, t, alias in m.deps:
